@@ -15,7 +15,7 @@ RULE = (
     "group structures: 1-3 county groups over the state patterns (A), (A,A), (A,B), (A,A,A), (A,A,B), each with a calibration-unit count from "
     "{0,1,9,10,11} (quick: {0,9,10} for three groups) and outstanding units present/absent (at least one group has them), plus a filler group; the "
     "generator computes which reporting positions the seeded shuffle sends to calibration and assigns groups to positions to realise the counts; one real "
-    "gaussian get_estimates per structure with aggregates [postal_code, county_fips] and alphas {0.7, 0.9}. Oracle per group with outstanding units: exactly "
+    "gaussian get_estimates per structure (and for six structures with the scale parameter beta in {2, 0.5}) with aggregates [postal_code, county_fips] and alphas {0.7, 0.9}. Oracle per group with outstanding units: exactly "
     "one finite interval; calibration set chosen by the statement's rule (own if >= min(10, n_cal), else state if that has >= threshold, else all); bounds "
     "= summed unadjusted unit bounds -/+ normal quantile at (3+alpha)/4 of (mu*sum w, sigma*sqrt(sum w^2 + inflate*(sum w)^2)), floored at partial counts, "
     "plus counted votes, rounded (+-1 vote). non-trivial = some group falls back to its parent"
@@ -45,6 +45,10 @@ def cases(tier, seed):
                     if tier == "quick" and k == 3 and sum(outs) == 2 and cs[0] == cs[1] == cs[2]:
                         continue
                     out.append({"pattern": list(pat), "counts": list(cs), "outstanding": list(outs), "seed": seed})
+    # non-default scale parameter: every interval width must carry beta exactly once, whatever the fallback depth
+    for pat, cs in ((("A",), (9,)), (("A", "A"), (10, 1)), (("A", "B"), (10, 0)), (("A", "A", "B"), (0, 10, 9)), (("A", "A", "B"), (11, 1, 0)), (("A", "A", "A"), (10, 9, 0))):
+        for beta in (2, 0.5):
+            out.append({"pattern": list(pat), "counts": list(cs), "outstanding": [True] * len(pat), "seed": seed, "beta": beta})
     return out
 
 
@@ -132,7 +136,10 @@ def evaluate(case):
 
     units, groups, cal_pos, train = build(case)
     alphas = [0.7, 0.9]
-    cfg = E.make_cfg(pi_method="gaussian", estimands=["turnout"], alphas=alphas, aggregates=["postal_code", "county_fips", "unit"], features=[])
+    beta = case.get("beta", 1)
+    cfg = E.make_cfg(pi_method="gaussian", estimands=["turnout"], alphas=alphas, aggregates=["postal_code", "county_fips", "unit"], features=[], model_parameters={"beta": beta} if beta != 1 else {})
+    if beta != 1:
+        cov["non_default_beta_runs"] += 1
     res = E.run_estimates(units, cfg, keep_client=True)
     if "error" in res:
         viol("run-raised", f"{res['error']} {res.get('tb', '')[-300:]}")
@@ -199,8 +206,8 @@ def evaluate(case):
                     cov["single_unit_calibration_skipped"] += 1
                     continue
                 infl = sum(w * w for w in ws) / (sum(ws) ** 2)
-                sig_l = bootstrap(np.array([c["lo"] for c in S]).reshape(1, -1), lambda x, axis: np.std(x, ddof=1, axis=-1), confidence_level=q, method="basic", n_resamples=10000, random_state=SEED_DEFAULT).confidence_interval.high
-                sig_u = bootstrap(np.array([c["up"] for c in S]).reshape(1, -1), lambda x, axis: np.std(x, ddof=1, axis=-1), confidence_level=q, method="basic", n_resamples=10000, random_state=SEED_DEFAULT).confidence_interval.high
+                sig_l = beta * bootstrap(np.array([c["lo"] for c in S]).reshape(1, -1), lambda x, axis: np.std(x, ddof=1, axis=-1), confidence_level=q, method="basic", n_resamples=10000, random_state=SEED_DEFAULT).confidence_interval.high
+                sig_u = beta * bootstrap(np.array([c["up"] for c in S]).reshape(1, -1), lambda x, axis: np.std(x, ddof=1, axis=-1), confidence_level=q, method="basic", n_resamples=10000, random_state=SEED_DEFAULT).confidence_interval.high
                 wU = [float(byid[nr_ids[i]]["b_turnout"] + 1) for i in idxs]
                 sw, ssw = sum(wU), sum(w * w for w in wU)
                 agg_lo = sum(w * lo_un[i] for w, i in zip(wU, idxs))
@@ -225,4 +232,4 @@ def evaluate(case):
     return {"violations": V, "cov": dict(cov), "outcome": sha({k: v["rows"] for k, v in res["ok"].items() if k != "unit_data"})[:16], "nontrivial": fallback}
 
 
-REQUIRED_COUNTERS = {"group_intervals_recomputed": 500, "county_fips_uses_own": 50, "county_fips_uses_state": 50, "county_fips_uses_all": 50, "postal_code_uses_own": 50, "postal_code_uses_all": 20}
+REQUIRED_COUNTERS = {"group_intervals_recomputed": 500, "county_fips_uses_own": 50, "county_fips_uses_state": 50, "county_fips_uses_all": 50, "postal_code_uses_own": 50, "postal_code_uses_all": 20, "non_default_beta_runs": 10}
